@@ -40,7 +40,7 @@ ASSUMPTIONS = ["the base state sampler yields states within the space bounds (it
 TRUSTED = ["extraction rewrite table of units/C15.py", "stub contracts in units/C15/informed_unb.c and stubs in units/C15/informed.c", "CBMC 6.11 (goto-instrument DFCC) + minisat"]
 NOT_COVERED = ["the prolate-hyperspheroid transform (unit sphere surface -> summed focal distance = c), the analytic measure, uniformity of the samples, 'no improving state is excluded' (Eigen linear algebra, transcendental formulas, a distributional claim)",
                "isInPhs (the membership test of one hyperspheroid), getPhsMeasure, randomPhsPtr (measure-proportional choice), ProlateHyperspheroid.cpp, GeometricEquations.cpp"]
-NATIVE = []
+NATIVE = [dict(name="c15_native_measures", driver="native/c15_native.cpp", link_ompl=True, unit_cpps=["src/ompl/util/src/GeometricEquations.cpp"], args=["measures"], timeout=120)]
 
 # ---- the same loops, UNBOUNDED in numIters_ (DFCC: loop contracts, stubs and callees replaced by their contracts) ----
 _G = "ver, draws, cur_cost, cur_inphs, cur_inb, base_sample_last"
@@ -116,7 +116,10 @@ W_RULES = [
     (r"State \*newStatePtr = InformedSampler::space_->allocState\(\);", "int newStatePtr = ALLOC();", 0), (r"infSampler_->sampleUniform\(newStatePtr, maxCost\);", "SAMPLE_INTO(newStatePtr, maxCost);", 0),
     (r"orderedSamples_\.push\(newStatePtr\);", "Q_PUSH(newStatePtr);", 0),
 ]
+H_RULES = [(r"probDefn_->getStartStateCount\(\)", "N_STARTS", 2), (r"opt_->infiniteCost\(\)", "INF_COST", 1), (r"\bCost bestCost\b", "double bestCost", 1), (r"opt_->betterCost\(", "BETTER_COST(", 1),
+           (r"opt_->combineCosts\(opt_->motionCostHeuristic\(probDefn_->getStartState\((\w+)\), statePtr\),\s*opt_->costToGo\(statePtr, probDefn_->getGoal\(\)\.get\(\)\)\)", r"VIA_START(\1)", 2)]
 W_SRC = [
+    dict(name="is_heuristicSolnCost", file=ISS, sig=r"Cost InformedSampler::heuristicSolnCost\(const State \*statePtr\) const", rules=H_RULES, loops={"allow_uncontracted": True}),
     dict(name="iss_sampleUniform", file=ISS, sig=r"void InformedStateSampler::sampleUniform\(State \*statePtr\)", rules=W_RULES, loops={}),
     dict(name="ord_sampleUniform", file=ORD, sig=r"bool OrderedInfSampler::sampleUniform\(State \*statePtr, const Cost &maxCost\)", rules=W_RULES, loops={"allow_uncontracted": True}),
     dict(name="ord_createBatch", file=ORD, sig=r"void OrderedInfSampler::createBatch\(const Cost &maxCost\)", rules=W_RULES, loops={"allow_uncontracted": True}),
@@ -124,6 +127,7 @@ W_SRC = [
 ]
 _ORDN = ["ord_sampleUniform", "ord_createBatch", "ord_clearBatch"]
 for h, needs, fn, bound, can in (
+        ("heur", ["is_heuristicSolnCost"], ["InformedSampler::heuristicSolnCost"], "<= 4 start states", [dict(name="first_start_skipped", where="body:is_heuristicSolnCost", rx=r"unsigned int i = 0u;", repl="unsigned int i = 1u;")]),
         ("iss", ["iss_sampleUniform"], ["InformedStateSampler::sampleUniform"], None, [dict(name="fallback_always", where="body:iss_sampleUniform", rx=r"if \(!informedSuccess\)", repl="if (true)")]),
         ("ord", _ORDN, ["OrderedInfSampler::sampleUniform(state, maxCost)"], "batch size <= 3, <= 3 batches per call", [dict(name="stale_top_served", where="body:ord_sampleUniform", rx=r"if \(BETTER\(Q_TOP\(\), HEUR_OF\(Q_TOP\(\)\), maxCost\)\)", repl="if (BETTER(Q_TOP(), HEUR_OF(Q_TOP()), maxCost) || true)"),
                                                                                                      dict(name="popped_not_freed", where="body:ord_sampleUniform", rx=r"FREE\(Q_TOP\(\)\);", repl="")]),
